@@ -236,6 +236,44 @@ fn verify<T: Elem, C: ArrayLength>(step: usize, op: &str, m: &DenseMatrix<T, C>,
     if de.next().is_some() || de.next_back().is_some() {
         return fail("iter", "iterator yields more rows than the matrix has".to_string());
     }
+    // the other methods of Iterator / DoubleEndedIterator / ExactSizeIterator, which an implementation may override:
+    // held against the same methods of the model's slice iterator (k walks over 0..=rows with the step number)
+    let n = model.len();
+    let k = step % (n + 1);
+    let rows_of = |v: Vec<&[T]>| -> Vec<Vec<T>> { v.into_iter().map(|r| r.to_vec()).collect() };
+    let want_of = |v: Vec<&Vec<T>>| -> Vec<Vec<T>> { v.into_iter().cloned().collect() };
+    // (size_hint() is not compared: the property speaks of the rows visited, and the iterators leave the default
+    // (0, None) in place while answering len() exactly)
+    if m.iter().count() != n {
+        return fail("iter-adaptors", format!("count() = {} for {} rows", m.iter().count(), n));
+    }
+    if m.iter().last().map(|r| r.to_vec()) != model.last().cloned() {
+        return fail("iter-adaptors", "last() is not the last row".to_string());
+    }
+    {
+        let (mut a, mut b) = (m.iter(), model.iter());
+        if a.nth(k).map(|r| r.to_vec()) != b.nth(k).cloned() || a.len() != b.len() || rows_of(a.collect()) != want_of(b.collect()) {
+            return fail("iter-adaptors", format!("nth({}) of {} rows: wrong row, or wrong rows left afterwards", k, n));
+        }
+        let (mut a, mut b) = (m.iter(), model.iter());
+        if a.nth_back(k).map(|r| r.to_vec()) != b.nth_back(k).cloned() || a.len() != b.len() || rows_of(a.collect()) != want_of(b.collect()) {
+            return fail("iter-adaptors", format!("nth_back({}) of {} rows: wrong row, or wrong rows left afterwards", k, n));
+        }
+        // one from each end first, then nth / nth_back on what is left
+        let (mut a, mut b) = (m.iter(), model.iter());
+        let _ = (a.next(), b.next(), a.next_back(), b.next_back());
+        let k2 = k / 2;
+        if a.nth_back(k2).map(|r| r.to_vec()) != b.nth_back(k2).cloned() || a.nth(k2).map(|r| r.to_vec()) != b.nth(k2).cloned() || a.len() != b.len() {
+            return fail("iter-adaptors", format!("next / next_back / nth_back({}) / nth({}) of {} rows disagree with a slice iterator", k2, k2, n));
+        }
+    }
+    if rows_of(m.iter().rev().skip(k).collect()) != want_of(model.iter().rev().skip(k).collect())
+        || rows_of(m.iter().skip(k).step_by(k + 1).collect()) != want_of(model.iter().skip(k).step_by(k + 1).collect())
+        || rows_of(m.iter().rev().step_by(k + 1).collect()) != want_of(model.iter().rev().step_by(k + 1).collect())
+    {
+        return fail("iter-adaptors", format!("rev().skip({0}) / skip({0}).step_by({1}) / rev().step_by({1}) of {2} rows disagree with a slice iterator", k, k + 1, n));
+    }
+    info.comparisons += 8;
     None
 }
 
@@ -426,6 +464,26 @@ fn run<T: Elem, C: ArrayLength + PartialEq>(case: &Case) -> Verdict {
                         *x = x.add_i64(*k);
                     }
                 }
+                // writes through nth / nth_back / rev().skip() of the mutable iterator land in the rows a slice
+                // iterator designates
+                let nrows = model.len();
+                let j = i % (nrows + 1);
+                let mut it = m.iter_mut();
+                let mut mit = model.iter_mut();
+                for (a, b) in [(it.nth_back(j), mit.nth_back(j)), (it.nth(j / 2), mit.nth(j / 2))] {
+                    match (a, b) {
+                        (Some(a), Some(b)) => {
+                            a[0] = a[0].add_i64(1);
+                            b[0] = b[0].add_i64(1);
+                        }
+                        (None, None) => {}
+                        (a, _) => return Verdict::Fail(Failure::new("dense:iter-adaptors", format!("iter_mut().nth_back({}) / nth({}) of {} rows is {} where a slice iterator is not", j, j / 2, nrows, if a.is_some() { "Some" } else { "None" }))),
+                    }
+                }
+                for (a, b) in m.iter_mut().rev().skip(j).zip(model.iter_mut().rev().skip(j)) {
+                    a[c - 1] = a[c - 1].add_i64(2);
+                    b[c - 1] = b[c - 1].add_i64(2);
+                }
                 name = "iter_mut";
             }
             Op::IntoIterMutAdd(k) => {
@@ -538,7 +596,7 @@ impl Sub for Model {
         "model"
     }
     fn rule(&self) -> &'static str {
-        "element type {u8, u32, f32, i64, Nucleotide (whose default is not the zero bit pattern), [u8;3] and [f32;3] (sizes that do not divide the 32-byte unit; one case in six)} x column count {1,5,7,16,21,32,43} x history of up to 40 ops (new, with_capacity, resize grow/shrink/0, reserve, cell writes via both Index forms, row writes, fill, from_rows, clone-and-continue, clone_from in both directions between matrices of different row counts and capacities, iter_mut, into_iter_mut.rev, and reads / writes of a cell the table does not have - a column >= columns of an existing row or a row >= rows - through MatrixCoordinates and through the row slice, which must be refused); after EVERY op rows/columns/all cells/row pointer alignment/stride/iterators (forward, reverse, mixed double-ended, len) are compared with a Vec<Vec<T>> model, then equality against a matrix with equal cells but a different padding history, and (f32) equality of a matrix holding a NaN with its clone and with itself (by the cells: unequal both times); non-trivial = >= 5 ops incl. a growing resize after writes and a shrink"
+        "element type {u8, u32, f32, i64, Nucleotide (whose default is not the zero bit pattern), [u8;3] and [f32;3] (sizes that do not divide the 32-byte unit; one case in six)} x column count {1,5,7,16,21,32,43} x history of up to 40 ops (new, with_capacity, resize grow/shrink/0, reserve, cell writes via both Index forms, row writes, fill, from_rows, clone-and-continue, clone_from in both directions between matrices of different row counts and capacities, iter_mut, into_iter_mut.rev, and reads / writes of a cell the table does not have - a column >= columns of an existing row or a row >= rows - through MatrixCoordinates and through the row slice, which must be refused); after EVERY op rows/columns/all cells/row pointer alignment/stride/iterators (forward, reverse, mixed double-ended, len, count, last, nth / nth_back with the rows left afterwards, rev().skip, skip().step_by, rev().step_by - shared and, for writes, mutable) are compared with a Vec<Vec<T>> model, then equality against a matrix with equal cells but a different padding history, and (f32) equality of a matrix holding a NaN with its clone and with itself (by the cells: unequal both times); non-trivial = >= 5 ops incl. a growing resize after writes and a shrink"
     }
     fn cases(&self, tier: Tier) -> u64 {
         tier.pick(28 * 3_000, 28 * 60_000)
